@@ -39,6 +39,7 @@ struct Options
   std::string out;   // result file (JSON)
   std::string dump;  // transition record dump (text), optional
   std::string replay;// replay a history: text form
+  std::string emit;  // emit every fault-free transition as a trace (witness history + op) for C08
   bool verbose;
 
   Options ()
@@ -70,6 +71,7 @@ inline bool parse_options (int argc, char **argv, Options& o)
     else if (k == "--out")         o.out = v;
     else if (k == "--dump")        o.dump = v;
     else if (k == "--replay")      o.replay = v;
+    else if (k == "--emit-traces") o.emit = v;
     else { std::fprintf (stderr, "unknown option %s\n", k.c_str ()); return false; }
   }
   return true;
